@@ -190,6 +190,12 @@ def rule_count_protocol(col, facts):
             for b2, c2, a2, _d2, _t2 in f.calls():
                 if b2 != bb and f.dominates(bb, b2) and callee_name(c2).endswith("DigitsIter::increment_count") and G.root(op_expr(f, a2[0])) == recv:
                     found = True
+            if not found:
+                # the increments may be made by a closure run in the region the step dominates
+                # (`(0..4).for_each(|_| iter.increment_count())`)
+                runs = any(b2 != bb and f.dominates(bb, b2) and last_seg(callee_name(c2)) in ("for_each", "fold", "try_for_each") for b2, c2, _a2, _d2, _t2 in f.calls())
+                clos = any(g.kind == "Closure" and g.closure_of == f.short and any(callee_name(c3).endswith("DigitsIter::increment_count") for _b3, c3, _a3, _d3, _t3 in g.calls()) for g in facts.all_fns())
+                found = runs and clos
             buffer_level = any(strip_casts(e)[0] == "kc" and "Bytes" in strip_casts(e)[1] and last_seg(strip_casts(e)[1]) == "IS_CONTIGUOUS" and p is True for _d, e, p in conds) or \
                 any(strip_casts(e)[0] == "call" and strip_casts(e)[1].endswith("Bytes::is_contiguous") and p is True for _d, e, p in conds)
             base = f.short if f.kind != "Closure" else f.closure_of
